@@ -2,6 +2,7 @@ package rules
 
 import (
 	"go/token"
+	"strings"
 
 	"golang.org/x/tools/go/ssa"
 
@@ -676,4 +677,192 @@ func ruleReverseReaderSurvivesReplacement(c *eng.Ctx) {
 		ok = w == nil
 	}
 	c.Check(ok, "a reverse reader re-positions itself when its segment was replaced", p.Pos(fn.Pos()), "ErrSegmentReplaced from the scanner leads to a re-initialisation, not to the caller", "ReverseReader.ReadMessage has no handling for a segment replaced by compaction: after a Clean() during a reverse subscription the next read fails (`segment has been closed`) — a FetchCursor that scans the compacted cursors stream fails with an Internal error")
+}
+
+// ruleParkedReaderKeepsRequestedOffset (R10.9): a committed reader created for an offset above the high watermark parks
+// (seg == nil) and must start, once the watermark moves, at the offset it was asked for — not at whatever is committed next.
+// Structural necessary condition: newReaderCommitted stores a value derived from its offset parameter in the parked reader,
+// and committedReader.Read derives the offset it resumes at from that field.
+func ruleParkedReaderKeepsRequestedOffset(c *eng.Ctx) {
+	p := c.P
+	mk := c.Fn(cl + "(*commitLog).newReaderCommitted")
+	rd := c.Fn(cl + "(*committedReader).Read")
+	if mk == nil || rd == nil {
+		return
+	}
+	dependsOnParam := func(v ssa.Value) bool {
+		hit := false
+		var walk func(v ssa.Value, d int)
+		seen := map[ssa.Value]bool{}
+		walk = func(v ssa.Value, d int) {
+			if v == nil || seen[v] || d > 20 {
+				return
+			}
+			seen[v] = true
+			switch x := v.(type) {
+			case *ssa.Parameter:
+				if x.Name() == "offset" {
+					hit = true
+				}
+			case *ssa.Phi:
+				for _, e := range x.Edges {
+					walk(e, d+1)
+				}
+			case *ssa.BinOp:
+				walk(x.X, d+1)
+				walk(x.Y, d+1)
+			case *ssa.Convert:
+				walk(x.X, d+1)
+			case *ssa.ChangeType:
+				walk(x.X, d+1)
+			}
+		}
+		walk(v, 0)
+		return hit
+	}
+	// the parked reader: the committedReader literal whose seg field is nil
+	var parkedFields []string
+	for _, st := range eng.FieldStores(mk, func(fa *ssa.FieldAddr) bool { return true }) {
+		fa := st.Addr.(*ssa.FieldAddr)
+		al, isAlloc := fa.X.(*ssa.Alloc)
+		if !isAlloc || !strings.HasSuffix(al.Type().String(), "committedReader") {
+			continue
+		}
+		// is this the literal with seg == nil?
+		parked := false
+		for _, st2 := range eng.FieldStores(mk, func(fa2 *ssa.FieldAddr) bool { return fa2.X == al && eng.FieldNameOf(fa2) == "seg" }) {
+			if eng.NilConst(st2.Val) {
+				parked = true
+			}
+		}
+		if parked && dependsOnParam(st.Val) {
+			parkedFields = append(parkedFields, eng.FieldNameOf(fa))
+		}
+	}
+	c.Check(len(parkedFields) > 0, "parked reader remembers the requested offset", p.Pos(mk.Pos()), "newReaderCommitted stores the offset it was asked for in the reader it parks (seg == nil)", "the reader parked for an offset above the high watermark does not record that offset: when the watermark moves it starts at hw+1 and delivers messages below the requested start (NEW_ONLY / LATEST on a leader with uncommitted messages)")
+	if len(parkedFields) == 0 {
+		return
+	}
+	// Read resumes from it
+	uses := false
+	for _, fe := range eng.CallsIn(rd, cl+"segment.findEntry", cl+"findSegment") {
+		seen := map[ssa.Value]bool{}
+		sources(fe.Common().Args[1], seen, func(v ssa.Value) {
+			for _, f := range parkedFields {
+				if eng.LoadNamed(f, nil)(v) {
+					uses = true
+				}
+			}
+		})
+	}
+	c.Check(uses, "parked reader resumes at the requested offset", p.Pos(rd.Pos()), "the offset committedReader.Read looks up after the wait derives from the recorded start offset", "committedReader.Read ignores the offset recorded for the parked reader when it resumes")
+}
+
+// ruleImplicitStopNotAnArgumentError (R10.3 extension): "stop offset before start offset" is an argument error only when the
+// client asked for a stop position. The implicit stop of a read-only partition (StopPosition == STOP_ON_CANCEL) lying before
+// the start means there is nothing to read, and the subscription has to end with the read-only status.
+func ruleImplicitStopNotAnArgumentError(c *eng.Ctx) {
+	p := c.P
+	fn := c.Fn("server.(*partition).Subscribe")
+	if fn == nil {
+		return
+	}
+	stopC := eng.Call(0, "server.partition.getStopOffset")
+	startC := eng.Call(0, "server.partition.getStartOffset")
+	inverted := eng.CmpEdges(fn, stopC, startC, eng.LT)
+	if len(inverted) == 0 {
+		c.Unresolved("stopOffset < startOffset test in Subscribe")
+		return
+	}
+	explicit := eng.CmpEdges(fn, eng.LoadNamed("StopPosition", nil), func(v ssa.Value) bool {
+		k, isK := eng.Strip(v).(*ssa.Const)
+		return isK && eng.EnumName(k) == "StopPosition_STOP_ON_CANCEL"
+	}, eng.NE)
+	// returns reached from the inverted edge without passing the reader creation: all of them are the rejection
+	var rej []*eng.Witness
+	for _, e := range inverted {
+		q := &eng.PathQuery{Fn: fn, FromEdges: []eng.Edge{e}, Target: func(x ssa.Instruction) bool {
+			call, isCall := x.(*ssa.Call)
+			if !isCall {
+				return false
+			}
+			if f := call.Common().StaticCallee(); f != nil && f.Name() == "New" && f.Pkg != nil && strings.HasSuffix(f.Pkg.Pkg.Path(), "grpc/status") {
+				k, isK := call.Common().Args[0].(*ssa.Const)
+				return isK && k.Int64() == 3 // codes.InvalidArgument
+			}
+			return false
+		}, CutEdges: append(append([]eng.Edge{}, explicit...), eng.BoolEdges(fn, eng.LoadNamed("Reverse", nil), true)...)} // the inverted forward range is only tested for !Reverse
+		if w := q.Find(); w != nil {
+			rej = append(rej, w)
+		}
+	}
+	c.Check(len(rej) == 0 && len(explicit) > 0, "implicit read-only stop before the start is not an argument error", p.Pos(fn.Pos()), "InvalidArgument for stop < start only behind StopPosition != STOP_ON_CANCEL", "a subscription without a stop position whose start lies past the end of a read-only partition (NEW_ONLY, the default) is rejected with InvalidArgument about a stop offset the client never sent, instead of ending with the read-only status")
+}
+
+// ruleDeletedSegmentReadsRecover (R08.6 extension, C09/C10): a read from a segment that retention marked deleted and closed
+// reports ErrSegmentReplaced — the error readers recover from by looking the position up again — exactly like a read from a
+// segment replaced by compaction. Decided on the reach condition of the ErrSegmentReplaced result over (closed, replaced,
+// deleted).
+func ruleDeletedSegmentReadsRecover(c *eng.Ctx) {
+	fn := c.Fn(cl + "(*segment).ReadAt")
+	if fn == nil {
+		return
+	}
+	isRep := eng.Global(cl + "ErrSegmentReplaced")
+	var site ssa.Instruction
+	eng.Instrs(fn, func(in ssa.Instruction) {
+		switch x := in.(type) {
+		case *ssa.Return:
+			for _, r := range x.Results {
+				if isRep(r) {
+					site = in
+				}
+			}
+		case *ssa.Store:
+			if isRep(x.Val) {
+				site = in
+			}
+		}
+	})
+	if site == nil {
+		c.Unresolved("ErrSegmentReplaced result in segment.ReadAt")
+		return
+	}
+	specs := []eng.AtomSpec{{A: eng.LoadNamed("closed", nil)}, {A: eng.LoadNamed("replaced", nil)}, {A: eng.LoadNamed("deleted", nil)}}
+	t, okT := eng.ReachTable(fn, site, specs)
+	ok := okT && eng.TableIs(t, func(bit func(int) bool) bool { return bit(0) && (bit(1) || bit(2)) })
+	c.Check(ok, "reads of a closed segment that was replaced or deleted ask the reader to re-position", c.Pos(site), "ErrSegmentReplaced exactly for closed ∧ (replaced ∨ deleted)", "a read from a segment deleted by retention (marked deleted, then closed) is reported as ErrSegmentClosed: the subscription of a slow reader ends with an Unknown status instead of continuing at the oldest retained message — or a segment still open is reported as gone")
+}
+
+// ruleReverseOnEmptyPartitionEnds (R10.2 extension): a reverse subscription reads committed messages downwards; with nothing
+// committed (HW == -1) it is at the beginning of the partition already and ends with ResourceExhausted instead of creating a
+// reverse reader (which fails with a lookup error reported as Unknown).
+func ruleReverseOnEmptyPartitionEnds(c *eng.Ctx) {
+	p := c.P
+	fn := c.Fn("server.(*partition).Subscribe")
+	if fn == nil {
+		return
+	}
+	nr := eng.CallsIn(fn, cl+"CommitLog.NewReverseReader", cl+"commitLog.NewReverseReader")
+	if len(nr) == 0 {
+		// the reverse reader may be created by the subscribe loop; then the guard has to stand before the loop is started
+		for _, x := range eng.CallsIn(fn, "server.partition.newSubscribeLoop") {
+			nr = append(nr, x)
+		}
+	}
+	if len(nr) == 0 {
+		c.Unresolved("reverse reader creation reachable from Subscribe")
+		return
+	}
+	nonEmpty := eng.CmpEdges(fn, eng.Call(0, cl+"CommitLog.HighWatermark", cl+"commitLog.HighWatermark"), eng.IntConst(-1), eng.NE)
+	forward := eng.BoolEdges(fn, eng.LoadNamed("Reverse", nil), false)
+	ok := len(nonEmpty) > 0
+	var w *eng.Witness
+	for _, x := range nr {
+		g, ww := eng.GuardedBy(fn, x.(ssa.Instruction), append(append([]eng.Edge{}, nonEmpty...), forward...))
+		if !g {
+			ok, w = false, ww
+		}
+	}
+	c.Check(ok, "reverse subscription on a partition with nothing committed ends at once", p.Pos(fn.Pos()), "the reverse reader is created only behind HighWatermark() != -1", "a reverse subscription on a partition without committed messages creates a reverse reader anyway (path "+w.String()+"): the client gets an Unknown lookup error instead of ResourceExhausted `beginning of partition`")
 }
